@@ -38,6 +38,11 @@ def c09_oracle(d, when):
                 kind = 'placed-elsewhere'
             out.append(oracles.V('C09', 'stale-entry:%s:%s' % (kind, when),
                                  '/placement/%s/%s exists but the model has it %s' % (sname, a, kind)))
+        for a in sorted(want & have):
+            if a not in scheduled:
+                # model and store agree with each other, but the instance is no longer scheduled at all
+                out.append(oracles.V('C09', 'entry-of-unscheduled-instance:' + when,
+                                     '/placement/%s/%s exists (and the model still places it) but /scheduled/%s is gone' % (sname, a, a)))
         for a in sorted(want - have):
             out.append(oracles.V('C09', 'missing-entry:' + when,
                                  'model places %s on %s, no entry stored' % (a, sname)))
